@@ -57,9 +57,20 @@ try:
     rc, out = sh(['git', 'apply', 'SEEDED/x/patch.diff'], wt)
     assert rc == 0, 'patch does not apply: ' + out
     patched, demo_out = sh([PY, 'SEEDED/x/demo.py'], wt, 600)
-    summary, failed = pytest(['tests'], wt)
+    # tests/web/test_wsgi_application.py::test_404 can spin for ever when it runs late in a long session on a loaded machine (also on
+    # the clean tree; pytest-timeout cannot break it): it is run on its own, everything else in one session
+    T404 = 'tests/web/test_wsgi_application.py::test_404'
+    summary, failed = pytest(['tests', '--deselect', T404], wt)
     if summary == 'no summary':          # killed by the timeout (loaded machine / a test child hanging): once more
-        summary, failed = pytest(['tests'], wt)
+        summary, failed = pytest(['tests', '--deselect', T404], wt)
+    s404 = 'not run'
+    for _ in range(3):
+        s404, f404 = pytest([T404], wt)
+        if s404 != 'no summary' and not f404:
+            break
+    else:
+        failed.append(T404)
+    summary += ' + test_404 alone: ' + s404
     flaky = []
     still = []
     for t in failed:
@@ -78,7 +89,7 @@ finally:
     sh(['git', '-C', '/repo', 'worktree', 'remove', '--force', wt])
 print('seeded %s (%s): demo clean=%d patched=%d; tests with change: %s; flaky: %s; failing because of the change: %s' % (
     sid, prop, clean, patched, summary, flaky, still))
-if clean == 0 and patched == 1 and not still and summary != 'no summary':
+if clean == 0 and patched == 1 and not still and not summary.startswith('no summary'):
     d = '/verif/seeded/%s' % sid
     os.makedirs(d, exist_ok=True)
     for f in ('patch.diff', 'demo.py', 'README.md'):
